@@ -538,10 +538,36 @@ def g_self(tier):
         lasts = [('vb=a[R]', lambda: A(V('vb'), Index('arr', R()))), ('if', lambda: If(B('==', Index('arr', R()), C(1)), A(V('vc'), C(1)), A(V('vc'), C(2)))), ('vb=a[R]+1', lambda: A(V('vb'), B('+', Index('arr', R()), C(1)))),
                  ('vb=a[O]', lambda: A(V('vb'), Index('arr', O())))]
         for (fn_, f), (mn, m), (ln, l) in itertools.product(firsts, mids, lasts):
-            st = ([A(V('va'), Index('arr', R())), A(R(), V('va'))] if f is None else [f()]) + ([m()] if m else []) + [l()]
+            head = [A(V('va'), Index('arr', R())), A(R(), V('va'))] if f is None else [f()]
+            st = head + ([m()] if m else []) + [l()]
             yield mkprog('deep/self/%s/%s/%s/%s' % (rn, fn_, mn, ln), st)
+            # the same with a register test and a forward branch between the reload and its uses (a compare of the register with a
+            # constant clears nothing the optimiser knows), and a following constant store (the look-ahead needs a next load)
+            rest = lambda: ([m()] if m else []) + [l(), A(V('vd'), C(0))]
+            yield mkprog('deep/self-if/%s/%s/%s/%s' % (rn, fn_, mn, ln), head + [If(B('!=', R(), C(255)), Block(rest()))])
+            if keep('deep/self-if0/%s/%s/%s/%s' % (rn, fn_, mn, ln), tier, 50):
+                yield mkprog('deep/self-if0/%s/%s/%s/%s' % (rn, fn_, mn, ln), head + [If(R(), Block(rest()), A(V('vd'), C(9)))])
+                yield mkprog('deep/self-tail/%s/%s/%s/%s' % (rn, fn_, mn, ln), head + rest())
             if mn != 'none' and keep('deep/self2/%s/%s/%s/%s' % (rn, fn_, mn, ln), tier, 40):
                 yield mkprog('deep/self2/%s/%s/%s/%s' % (rn, fn_, mn, ln), st + [m(), l()])
+
+
+def g_guarded(tier):
+    """peephole sequences (sandwiches a;b;a, flag interplay, aliasing) with a register test and a forward branch after the first
+    statement and a constant store at the end: a compare of X / Y with a constant forgets nothing the optimiser knows, and its
+    look-ahead rules need a following load"""
+    import families, copy
+    for p in families.g_peep('quick'):
+        if not p.pid.startswith(('peep/s/', 'peep/f/', 'peep/a/')): continue
+        st = p.main.stmts
+        if len(st) < 2: continue
+        for rn in ('X', 'Y'):
+            pid = 'deep/guard/%s/%s' % (rn, p.pid)
+            if not keep(pid, tier, 12): continue
+            q = copy.copy(p); q.pid = pid
+            q.main = Block([st[0], If(B('!=', V(rn), C(255)), Block(list(st[1:]) + [A(V('hc'), C(0))]))])
+            q.globs = list(p.globs) + ([('s16', 'hc')] if 'hc' not in p.gnames() else [])
+            yield q
 
 
 def g_deep(tier):
